@@ -392,6 +392,22 @@ pub fn corpus() -> Vec<CorpusProg> {
         safe(true, &["difference", "bounded-side", "ordered"]),
     );
     b.add(
+        "c_chain_bounded_first",
+        &["i64"],
+        &[],
+        &[(
+            "i64",
+            Seq,
+            None,
+            Ref::Eventual(|f| {
+                let mut v = vec![100i64, 200];
+                v.extend(ints(f, 0).into_iter().map(|x| x + 1));
+                enc(v)
+            }),
+        )],
+        safe(false, &["chain", "bounded-source", "ordered"]),
+    );
+    b.add(
         "c_fold_sum",
         &["i64"],
         &[],
